@@ -73,7 +73,10 @@ INDEXES = ("prefix_map", "synonym_to_prefix", "reverse_prefix_map", "pattern_map
 def indexes(conv):
     """The five lookup structures as sorted item tuples."""
     out = [tuple(sorted(getattr(conv, name).items())) for name in INDEXES]
-    out.append(tuple(sorted(conv.trie.items())))
+    try:
+        out.append(tuple(sorted(conv.trie.items())))
+    except AttributeError:   # a trie that is not a mapping: compared through the queries only
+        out.append(("opaque-trie", type(conv.trie).__name__))
     return tuple(out)
 
 
